@@ -553,6 +553,10 @@ func OpenWith(path string, vLogs []appendable.Appendable, txLog, cLog appendable
 			committedAlh = tx.header.Alh()
 		}
 
+		if tx.header.ID != committedTxID {
+			return nil, fmt.Errorf("corrupted transaction log: last commit log entry (tx %d) points to the record of tx %d: %w", committedTxID, tx.header.ID, ErrCorruptedTxData)
+		}
+
 		if cLogEntrySize == cLogEntrySizeV2 {
 			if committedAlh != tx.header.Alh() {
 				return nil, fmt.Errorf("corrupted transaction log: digest mismatch in the last transaction: %w", err)
@@ -3215,6 +3219,9 @@ func (s *ImmuStore) readTx(txID uint64, allowPrecommitted bool, skipIntegrityChe
 	if errors.Is(err, io.EOF) {
 		return fmt.Errorf("%w: unexpected EOF while reading tx %d", ErrCorruptedTxData, txID)
 	}
+	if err == nil && tx.header.ID != txID {
+		return fmt.Errorf("%w: commit log entry of tx %d points to the record of tx %d", ErrCorruptedTxData, txID, tx.header.ID)
+	}
 
 	return err
 }
@@ -3230,6 +3237,9 @@ func (s *ImmuStore) ReadTxHeader(txID uint64, allowPrecommitted bool, skipIntegr
 	header, err := tdr.readHeader(s.maxTxEntries)
 	if err != nil {
 		return nil, err
+	}
+	if header.ID != txID {
+		return nil, fmt.Errorf("%w: commit log entry of tx %d points to the record of tx %d", ErrCorruptedTxData, txID, header.ID)
 	}
 
 	// The TxEntry's key buffer is scratch — the returned *TxHeader carries
@@ -3272,6 +3282,9 @@ func (s *ImmuStore) ReadTxEntry(txID uint64, key []byte, skipIntegrityCheck bool
 	header, err := tdr.readHeader(s.maxTxEntries)
 	if err != nil {
 		return nil, nil, err
+	}
+	if header.ID != txID {
+		return nil, nil, fmt.Errorf("%w: commit log entry of tx %d points to the record of tx %d", ErrCorruptedTxData, txID, header.ID)
 	}
 
 	e := &TxEntry{k: make([]byte, s.maxKeyLen)}
